@@ -195,6 +195,14 @@ func (h *NFSProcedureHandler) handleCreate(body io.Reader, reply *RPCReply, auth
 		h.server.handler.rememberExclusiveCreate(newNode.path, verf)
 	}
 
+	// Record the owner in the backend, as MKDIR and SYMLINK do: the effective
+	// identity of the caller, or what a root caller asked for in sattr3.
+	if err := h.server.handler.fs.Chown(newNode.path, int(newUID), int(newGID)); err != nil {
+		if h.server.options.Debug {
+			h.server.logger.Printf("CREATE: Chown failed for '%s': %v", newNode.path, err)
+		}
+	}
+
 	dirPostAttrs, err := h.server.handler.GetAttr(node)
 	if err != nil {
 		return nfsErrorWithWcc(reply, mapError(err)), nil
